@@ -790,8 +790,16 @@ def split_chain_loops(parts):
                 c = list(ces.values())[0]
                 ea, eb, it = c.args
                 for e, half in ((ea, it.args[0]), (eb, it.args[1])):
-                    body = [(q[0], substitute(q[1], c, e)) if len(q) > 1 and is_t(q[1]) else q for q in p[1]]
                     single = half.op == "iter" and half.args[0].op == "agg" and half.args[0].args[0] == "array" and len(half.args[0].args) == 2
+                    optional = half.op == "enum" and half.args[0].endswith("option::Option")
+                    if optional:
+                        # an Option used as an iterator yields its payload once when Some, nothing when None
+                        some = [a for a in half.args[1] if a[0] == 1 and a[2]]
+                        if len(some) == 1:
+                            body = [(q[0], substitute(q[1], c, some[0][2][0])) if len(q) > 1 and is_t(q[1]) else q for q in p[1]]
+                            out.append(("opt", half, body))
+                        continue
+                    body = [(q[0], substitute(q[1], c, e)) if len(q) > 1 and is_t(q[1]) else q for q in p[1]]
                     if single:
                         out.extend(body)
                     else:
